@@ -241,3 +241,83 @@ Lemma comps_cmp_is_pure : forall a b, forallb is_some a = true -> forallb is_som
 Proof. apply lexpadO_pure; [apply ocmp_pure | reflexivity]. Qed.
 Lemma comps_cmp_pure_tp : TotalPreorder comps_cmp_pure.
 Proof. apply lexpad_total_preorder. apply by_key_tp. apply Zcompare_tp. Qed.
+
+(* ------------------------------------------------------------------ further lemmas (used by Alpine) *)
+Section LexPadOn.
+  Context {A : Type} (d : A) (co : A -> A -> outcome comparison) (good : A -> bool).
+  Hypothesis good_d : good d = true.
+
+  Lemma lexnO_antisym_on :
+    (forall x y, good x = true -> good y = true -> co y x = oppO (co x y)) ->
+    forall n l1 l2, forallb good l1 = true -> forallb good l2 = true ->
+      lexnO d co n l2 l1 = oppO (lexnO d co n l1 l2).
+  Proof.
+    intros AS. induction n; intros l1 l2 G1 G2; simpl; [reflexivity|].
+    rewrite (AS (hd d l1) (hd d l2) (good_hd d good good_d l1 G1) (good_hd d good good_d l2 G2)).
+    destruct (co (hd d l1) (hd d l2)) as [[]| |]; simpl; try reflexivity.
+    apply IHn; apply good_tl; assumption.
+  Qed.
+
+  Lemma lexpadO_antisym_on :
+    (forall x y, good x = true -> good y = true -> co y x = oppO (co x y)) ->
+    forall l1 l2, forallb good l1 = true -> forallb good l2 = true ->
+      lexpadO d co l2 l1 = oppO (lexpadO d co l1 l2).
+  Proof.
+    intros AS l1 l2 G1 G2. unfold lexpadO. rewrite (Nat.max_comm (length l2)).
+    apply lexnO_antisym_on; assumption.
+  Qed.
+
+  Lemma lexnO_refl_on : (forall x, good x = true -> co x x = Ok Eq) ->
+    forall n l, forallb good l = true -> lexnO d co n l l = Ok Eq.
+  Proof.
+    intros R. induction n; intros l G; simpl; [reflexivity|].
+    rewrite (R _ (good_hd d good good_d l G)). apply IHn. apply good_tl; exact G.
+  Qed.
+
+  Lemma lexpadO_refl_on : (forall x, good x = true -> co x x = Ok Eq) ->
+    forall l, forallb good l = true -> lexpadO d co l l = Ok Eq.
+  Proof. intros R l G. apply lexnO_refl_on; assumption. Qed.
+End LexPadOn.
+
+Lemma lexn_map {A B} (f : A -> B) (d : A) (c : B -> B -> comparison) :
+  forall n l1 l2, lexn d (by_key f c) n l1 l2 = lexn (f d) c n (map f l1) (map f l2).
+Proof.
+  induction n; intros l1 l2; simpl; [reflexivity|]. unfold by_key at 1.
+  replace (hd (f d) (map f l1)) with (f (hd d l1)) by (destruct l1; reflexivity).
+  replace (hd (f d) (map f l2)) with (f (hd d l2)) by (destruct l2; reflexivity).
+  destruct (c (f (hd d l1)) (f (hd d l2))); try reflexivity.
+  rewrite IHn. f_equal; [destruct l1 | destruct l2]; reflexivity.
+Qed.
+
+Lemma lexpad_map {A B} (f : A -> B) (d : A) (c : B -> B -> comparison) :
+  forall l1 l2, lexpad d (by_key f c) l1 l2 = lexpad (f d) c (map f l1) (map f l2).
+Proof. intros. unfold lexpad. rewrite !map_length. apply lexn_map. Qed.
+
+(* unfolding one position *)
+Section LexPadCons.
+  Context {A : Type} (d : A).
+
+  Lemma lexpadO_cons_cons (co : A -> A -> outcome comparison) : forall x a y b,
+    lexpadO d co (x :: a) (y :: b) = thenO (co x y) (lexpadO d co a b).
+  Proof. intros. unfold lexpadO. simpl. destruct (co x y) as [[]| |]; reflexivity. Qed.
+
+  Lemma lexpadO_nil_cons (co : A -> A -> outcome comparison) : forall y b,
+    lexpadO d co [] (y :: b) = thenO (co d y) (lexpadO d co [] b).
+  Proof. intros. unfold lexpadO. simpl. destruct (co d y) as [[]| |]; reflexivity. Qed.
+
+  Lemma lexpadO_cons_nil (co : A -> A -> outcome comparison) : forall x a,
+    lexpadO d co (x :: a) [] = thenO (co x d) (lexpadO d co a []).
+  Proof. intros. unfold lexpadO. simpl. rewrite Nat.max_0_r. destruct (co x d) as [[]| |]; reflexivity. Qed.
+
+  Lemma lexpad_cons_cons (c : A -> A -> comparison) : forall x a y b,
+    lexpad d c (x :: a) (y :: b) = thenc (c x y) (lexpad d c a b).
+  Proof. intros. unfold lexpad. simpl. destruct (c x y); reflexivity. Qed.
+
+  Lemma lexpad_nil_cons (c : A -> A -> comparison) : forall y b,
+    lexpad d c [] (y :: b) = thenc (c d y) (lexpad d c [] b).
+  Proof. intros. unfold lexpad. simpl. destruct (c d y); reflexivity. Qed.
+
+  Lemma lexpad_cons_nil (c : A -> A -> comparison) : forall x a,
+    lexpad d c (x :: a) [] = thenc (c x d) (lexpad d c a []).
+  Proof. intros. unfold lexpad. simpl. rewrite Nat.max_0_r. destruct (c x d); reflexivity. Qed.
+End LexPadCons.
